@@ -132,6 +132,29 @@ Proof.
     + revert H2. apply Forall2_imp. intros a b. apply Hm. lia.
 Qed.
 
+(* order-preserving sublists (for the slot lists of flattened members) *)
+Inductive Sub {X} : list X -> list X -> Prop :=
+| Sub_nil : Sub [] []
+| Sub_cons x l m : Sub l m -> Sub (x :: l) (x :: m)
+| Sub_skip x l m : Sub l m -> Sub l (x :: m).
+
+Lemma Sub_refl {X} (l : list X) : Sub l l.
+Proof. induction l; constructor; assumption. Qed.
+
+Lemma Sub_nil_l {X} (l : list X) : Sub [] l.
+Proof. induction l; constructor; assumption. Qed.
+
+Lemma Sub_trans {X} (a b c : list X) : Sub a b -> Sub b c -> Sub a c.
+Proof.
+  intros H1 H2. revert a H1. induction H2 as [|x l m H IH|x l m H IH]; intros a H1.
+  - exact H1.
+  - inversion H1; subst; [constructor; apply IH; assumption | apply Sub_skip; apply IH; assumption].
+  - apply Sub_skip. apply IH. exact H1.
+Qed.
+
+Lemma Sub_In {X} (a b : list X) x : Sub a b -> In x a -> In x b.
+Proof. intros H. induction H; simpl; intuition. Qed.
+
 (* ------------------------------------------------------------------ helpers parametrised by de/dflt *)
 Section Helpers.
   Variable T : space.
@@ -168,15 +191,140 @@ Section Helpers.
         * intros H q w' Hin Hw. apply H; [right; exact Hin | exact Hw].
   Qed.
 
+  (* ---- flattened members.  Whether [de_flats] succeeds does not depend on the values
+     the flattened subtypes get (a failed subtype is None), only on the maps: *)
+  Definition flat_rest (de : id -> json -> option rval) (qs : list prop) (slots : list (ustring * json))
+    : list (ustring * json) := snd (fst (flat_take de qs slots)).
+
+  Fixpoint flats_ok (de : id -> json -> option rval) (fps : list prop) (slots : list (ustring * json)) : Prop :=
+    match fps with
+    | [] => True
+    | fp :: r =>
+        match get_det T (p_ty fp) with
+        | Some (DMap _ _) => de (p_ty fp) (JObj slots) <> None /\ flats_ok de r slots
+        | Some (DOption t') =>
+            match get_det T t' with
+            | Some (DStruct _ _ qs _) =>
+                match flat_props qs with
+                | [] => flats_ok de r (flat_rest de qs slots)
+                | _ => False
+                end
+            | _ => False
+            end
+        | _ => False
+        end
+    end.
+
+  Lemma de_flats_ok de dflt fps slots : de_flats T de dflt fps slots <> None <-> flats_ok de fps slots.
+  Proof.
+    revert slots. induction fps as [|fp r IH]; intros slots; cbn [de_flats flats_ok]; [split; [trivial | congruence]|].
+    destruct (get_det T (p_ty fp)) as [d|]; [|split; [congruence | intros []]].
+    destruct d; try (split; [congruence | intros []]).
+    - (* Option of a struct *)
+      destruct (get_det T t) as [d'|]; [|split; [congruence | intros []]].
+      destruct d'; try (split; [congruence | intros []]).
+      destruct (flat_props props); [|split; [congruence | intros []]].
+      unfold flat_rest. destruct (flat_take de props slots) as [[tk rest] ok]. cbn [fst snd].
+      rewrite option_map_ok. apply IH.
+    - (* map *)
+      destruct (de (p_ty fp) (JObj slots)) as [m|].
+      + rewrite option_map_ok, IH. split; [intros H; split; [congruence | exact H] | intros [_ H]; exact H].
+      + split; [congruence | intros [H _]; congruence].
+  Qed.
+
+  (* the remaining slots are a sublist of the slots *)
+  Lemma flat_rest_sub de qs slots : Sub (flat_rest de qs slots) slots.
+  Proof.
+    unfold flat_rest. induction slots as [|kv r IH]; cbn [flat_take]; [constructor|].
+    destruct (find_wire_prop (fst kv) qs) as [q|].
+    - destruct (de (p_ty q) (snd kv)).
+      + destruct (flat_take de qs r) as [[tk rs] ok]. cbn [fst snd] in *. apply Sub_skip. exact IH.
+      + cbn [fst snd]. apply Sub_skip. apply Sub_refl.
+    - destruct (flat_take de qs r) as [[tk rs] ok]. cbn [fst snd] in *. apply Sub_cons. exact IH.
+  Qed.
+
+  (* a more accepting deserialiser, given fewer slots, leaves fewer slots *)
+  Lemma flat_rest_mono de1 de2 qs :
+    (forall t j, de1 t j <> None -> de2 t j <> None) ->
+    forall s1 s2, Sub s2 s1 -> Sub (flat_rest de2 qs s2) (flat_rest de1 qs s1).
+  Proof.
+    intros Hde s1 s2 H. induction H as [|kv l m H IH|kv l m H IH].
+    - constructor.
+    - unfold flat_rest in *. cbn [flat_take].
+      destruct (find_wire_prop (fst kv) qs) as [q|].
+      + destruct (de1 (p_ty q) (snd kv)) eqn:E1.
+        * assert (E2 : de2 (p_ty q) (snd kv) <> None) by (apply Hde; congruence).
+          destruct (de2 (p_ty q) (snd kv)); [|congruence].
+          destruct (flat_take de1 qs m) as [[tk1 rs1] ok1]. destruct (flat_take de2 qs l) as [[tk2 rs2] ok2].
+          cbn [fst snd] in *. exact IH.
+        * cbn [fst snd]. destruct (de2 (p_ty q) (snd kv)).
+          -- destruct (flat_take de2 qs l) as [[tk2 rs2] ok2] eqn:E. cbn [fst snd].
+             eapply Sub_trans; [|exact H]. pose proof (flat_rest_sub de2 qs l) as Hs. unfold flat_rest in Hs.
+             rewrite E in Hs. exact Hs.
+          -- cbn [fst snd]. exact H.
+      + destruct (flat_take de1 qs m) as [[tk1 rs1] ok1]. destruct (flat_take de2 qs l) as [[tk2 rs2] ok2].
+        cbn [fst snd] in *. apply Sub_cons. exact IH.
+    - unfold flat_rest in *. cbn [flat_take].
+      destruct (find_wire_prop (fst kv) qs) as [q|].
+      + destruct (de1 (p_ty q) (snd kv)).
+        * destruct (flat_take de1 qs m) as [[tk1 rs1] ok1]. cbn [fst snd] in *. exact IH.
+        * cbn [fst snd]. eapply Sub_trans; [|exact H]. apply (flat_rest_sub de2 qs l).
+      + destruct (flat_take de1 qs m) as [[tk1 rs1] ok1]. cbn [fst snd] in *. apply Sub_skip. exact IH.
+  Qed.
+
   (* what the flattened / unknown-entries stage of a struct body needs *)
+  Definition is_map_member (fp : prop) : Prop := exists k v, get_det T (p_ty fp) = Some (DMap k v).
+
   Definition flat_stage_ok (de : id -> json -> option rval) (ps : list prop) (deny : bool)
              (kvs : list (ustring * json)) : Prop :=
     match flat_props ps with
     | [] => deny && negb (Nat.eqb (length (unknown_entries ps kvs)) 0) = false
-    | [fp] => (exists k v, get_det T (p_ty fp) = Some (DMap k v))
-              /\ de (p_ty fp) (JObj (unknown_entries ps kvs)) <> None
-    | _ => False
+    | [fp] => (is_map_member fp \/ deny = false) /\ flats_ok de [fp] (unknown_entries ps kvs)
+    | fps => deny = false /\ flats_ok de fps (unknown_entries ps kvs)
     end.
+
+  (* the one-flattened-map case, as it was before several flattened members were modelled *)
+  Lemma flats_ok_one_map de fp slots k v :
+    get_det T (p_ty fp) = Some (DMap k v) -> (flats_ok de [fp] slots <-> de (p_ty fp) (JObj slots) <> None).
+  Proof. intros E. cbn [flats_ok]. rewrite E. tauto. Qed.
+
+  Lemma de_flats_one_map de dflt fp slots k v :
+    get_det T (p_ty fp) = Some (DMap k v) ->
+    de_flats T de dflt [fp] slots = option_map (fun m => [(p_name fp, m)]) (de (p_ty fp) (JObj slots)).
+  Proof. intros E. cbn [de_flats]. rewrite E. destruct (de (p_ty fp) (JObj slots)); reflexivity. Qed.
+
+  (* [de_struct_obj] for at most one flattened member that is a map: the definition
+     before several flattened members were modelled *)
+  Lemma de_struct_obj_one_flatten_unchanged de dflt ps deny kvs :
+    match flat_props ps with
+    | [] => True
+    | [fp] => is_map_member fp
+    | _ => False
+    end ->
+    de_struct_obj T de dflt ps deny kvs =
+    match de_named T de dflt ps kvs with
+    | None => None
+    | Some named =>
+        let unk := unknown_entries ps kvs in
+        match flat_props ps with
+        | [] => if deny && negb (Nat.eqb (length unk) 0) then None else Some named
+        | [fp] =>
+            match get_det T (p_ty fp) with
+            | Some (DMap _ _) =>
+                match de (p_ty fp) (JObj unk) with
+                | Some m => Some (named ++ [(p_name fp, m)])
+                | None => None
+                end
+            | _ => None
+            end
+        | _ => None
+        end
+    end.
+  Proof.
+    unfold de_struct_obj. destruct (de_named T de dflt ps kvs) as [named|]; [|reflexivity].
+    destruct (flat_props ps) as [|fp [|fp2 r]]; try reflexivity; [|intros []].
+    intros [k [v E]]. rewrite E. reflexivity.
+  Qed.
 
   Lemma de_struct_obj_ok de dflt ps deny kvs :
     de_struct_obj T de dflt ps deny kvs <> None <->
@@ -187,13 +335,24 @@ Section Helpers.
     destruct (flat_props ps) as [|fp [|fp2 r]].
     - destruct (deny && negb (Nat.eqb (length (unknown_entries ps kvs)) 0)); split;
         try congruence; try (intros _; split; congruence). intros [_ H]. discriminate.
-    - destruct (get_det T (p_ty fp)) as [d|].
-      + destruct d; try (split; [congruence | intros [_ [[k [v E]] _]]; discriminate]).
+    - assert (G : (if deny then None else option_map (app named) (de_flats T de dflt [fp] (unknown_entries ps kvs))) <> None
+                  <-> deny = false /\ flats_ok de [fp] (unknown_entries ps kvs)).
+      { destruct deny; [split; [congruence | intros [H _]; discriminate]|].
+        rewrite option_map_ok, de_flats_ok. tauto. }
+      destruct (get_det T (p_ty fp)) as [d|] eqn:Ed.
+      + destruct d;
+          try (rewrite G; unfold is_map_member; rewrite Ed; split;
+               [intros [H1 H2]; split; [congruence | split; [right; exact H1 | exact H2]]
+               |intros [_ [[[k [v E]]|H1] H2]]; [discriminate | split; assumption]]).
+        rewrite (flats_ok_one_map de fp _ _ _ Ed).
         destruct (de (p_ty fp) (JObj (unknown_entries ps kvs))) eqn:E.
-        * split; [intros _; split; [congruence|split; [eexists; eexists; reflexivity | congruence]] | congruence].
+        * split; [intros _; split; [congruence|split; [left; eexists; eexists; exact Ed | congruence]] | congruence].
         * split; [congruence | intros [_ [_ H]]; congruence].
-      + split; [congruence | intros [_ [[k [v E]] _]]; discriminate].
-    - split; [congruence | intros [_ []]].
+      + rewrite G. unfold is_map_member. rewrite Ed. split.
+        * intros [H1 H2]. split; [congruence | split; [right; exact H1 | exact H2]].
+        * intros [_ [[[k [v E]]|H1] H2]]; [discriminate | split; assumption].
+    - destruct deny; [split; [congruence | intros [_ [H _]]; discriminate]|].
+      rewrite option_map_ok, de_flats_ok. split; [intros H; split; [congruence | split; [reflexivity | exact H]] | intros [_ [_ H]]; exact H].
   Qed.
 
   (* ---- a required member that is absent *)
@@ -235,6 +394,9 @@ Section Helpers.
     Hypothesis Hdf : forall t, df1 t <> None -> df2 t <> None.
     (* a required member may be absent when its type reads null as the bare None *)
     Hypothesis Hnull : forall t, de1 t JNull = Some ROptNone -> de2 t JNull = Some ROptNone.
+    (* a flattened map that took the remaining slots takes any sublist of them *)
+    Hypothesis Hmap : forall t k v s1 s2, get_det T t = Some (DMap k v) -> Sub s2 s1 ->
+                                          de1 t (JObj s1) <> None -> de2 t (JObj s2) <> None.
 
     Lemma missing_lift p : missing T de1 df1 p <> None -> missing T de2 df2 p <> None.
     Proof.
@@ -254,10 +416,25 @@ Section Helpers.
       rewrite !de_named_ok. intros H p w Hin Hw. apply member_val_lift. apply H; assumption.
     Qed.
 
+    Lemma flats_ok_lift fps : forall s1 s2, Sub s2 s1 -> flats_ok de1 fps s1 -> flats_ok de2 fps s2.
+    Proof.
+      induction fps as [|fp r IH]; intros s1 s2 Hs; cbn [flats_ok]; [trivial|].
+      destruct (get_det T (p_ty fp)) as [d|] eqn:Ed; [|exact (fun H => H)].
+      destruct d; try exact (fun H => H).
+      - (* Option of a struct *)
+        destruct (get_det T t) as [d'|]; [|exact (fun H => H)]. destruct d'; try exact (fun H => H).
+        destruct (flat_props props); [|exact (fun H => H)].
+        apply IH. apply flat_rest_mono; [exact Hde | exact Hs].
+      - (* map: fewer slots, each accepted *)
+        intros [H1 H2]. split; [|exact (IH _ _ Hs H2)].
+        revert H1. eapply Hmap; [exact Ed | exact Hs].
+    Qed.
+
     Lemma flat_stage_lift ps deny kvs : flat_stage_ok de1 ps deny kvs -> flat_stage_ok de2 ps deny kvs.
     Proof.
-      unfold flat_stage_ok. destruct (flat_props ps) as [|fp [|fp2 r]]; [exact (fun H => H) | | exact (fun H => H)].
-      intros [H1 H2]. split; [exact H1 | apply Hde; exact H2].
+      unfold flat_stage_ok. destruct (flat_props ps) as [|fp [|fp2 r]]; [exact (fun H => H) | | ].
+      - intros [H1 H2]. split; [exact H1 | exact (flats_ok_lift _ _ _ (Sub_refl _) H2)].
+      - intros [H1 H2]. split; [exact H1 | exact (flats_ok_lift _ _ _ (Sub_refl _) H2)].
     Qed.
 
     Lemma de_struct_obj_lift ps deny kvs :
@@ -492,9 +669,11 @@ Section DeMono.
     (forall t j, dr1 t j <> None -> dr2 t j <> None) ->
     (forall t, df1 t <> None -> df2 t <> None) ->
     (forall t, dr1 t JNull = Some ROptNone -> dr2 t JNull = Some ROptNone) ->
+    (forall t k v s1 s2, get_det T t = Some (DMap k v) -> Sub s2 s1 ->
+                         dr1 t (JObj s1) <> None -> dr2 t (JObj s2) <> None) ->
     forall d j, de_node dr1 df1 d j <> None -> de_node dr2 df2 d j <> None.
   Proof.
-    intros Hde Hdf Hnull d j. destruct d; simpl; try exact (fun H => H).
+    intros Hde Hdf Hnull Hmap d j. destruct d; simpl; try exact (fun H => H).
     - (* DEnum *) apply de_enum_lift; assumption.
     - (* DStruct *) apply de_struct_body_lift; assumption.
     - (* DNewtype *)
@@ -679,88 +858,116 @@ Section DeMono.
     intros Hle H. induction Hle as [|m Hle IH]; [exact H | apply null_S; exact IH].
   Qed.
 
-  Lemma acc_S : forall f t j, de f t j <> None -> de (S f) t j <> None.
+  (* a map that takes a list of entries takes every sublist of it *)
+  Lemma map_sub_node dr1 dr2 k v s1 s2 df1 df2 :
+    (forall t j, dr1 t j <> None -> dr2 t j <> None) -> Sub s2 s1 ->
+    de_node dr1 df1 (DMap k v) (JObj s1) <> None -> de_node dr2 df2 (DMap k v) (JObj s2) <> None.
   Proof.
-    induction f as [|f IH]; intros t j; [rewrite de_0; congruence|].
-    rewrite (de_S (S f)), (de_S f). destruct (get_det T t) as [d|]; [|exact (fun H => H)].
-    apply de_node_lift; [exact IH | apply default_val_S | apply null_S].
+    intros Hde Hs. cbn [de_node]. rewrite !option_map_ok, !mapM_ok. intros H kv Hin.
+    specialize (H kv (Sub_In _ _ _ Hs Hin)). unfold de_key in *.
+    assert (H1 : dr1 k (JStr (fst kv)) <> None) by (destruct (dr1 k (JStr (fst kv))); congruence).
+    assert (H2 : dr1 v (snd kv) <> None).
+    { destruct (dr1 k (JStr (fst kv))); [|congruence]. destruct (dr1 v (snd kv)); congruence. }
+    apply Hde in H1, H2.
+    destruct (dr2 k (JStr (fst kv))); [|congruence]. destruct (dr2 v (snd kv)); congruence.
   Qed.
+
+  Lemma acc_S_both : forall f,
+    (forall t j, de f t j <> None -> de (S f) t j <> None) /\
+    (forall t k v s1 s2, get_det T t = Some (DMap k v) -> Sub s2 s1 ->
+                         de f t (JObj s1) <> None -> de (S f) t (JObj s2) <> None).
+  Proof.
+    induction f as [|f [IH1 IH2]].
+    - split; [intros t j; rewrite de_0; congruence | intros t k v s1 s2 _ _; rewrite de_0; congruence].
+    - split.
+      + intros t j. rewrite (de_S (S f)), (de_S f). destruct (get_det T t) as [d|]; [|exact (fun H => H)].
+        apply de_node_lift; [exact IH1 | apply default_val_S | apply null_S | exact IH2].
+      + intros t k v s1 s2 E Hs. rewrite (de_S (S f)), (de_S f), E. apply map_sub_node; [exact IH1 | exact Hs].
+  Qed.
+
+  Lemma acc_S : forall f t j, de f t j <> None -> de (S f) t j <> None.
+  Proof. intros f. apply (proj1 (acc_S_both f)). Qed.
 
   Theorem acc_mono f f' t j : f <= f' -> de f t j <> None -> de f' t j <> None.
   Proof.
     intros Hle H. induction Hle as [|m Hle IH]; [exact H | apply acc_S; exact IH].
   Qed.
 
+  Lemma map_sub_mono f f' t k v s1 s2 :
+    f <= f' -> get_det T t = Some (DMap k v) -> Sub s2 s1 ->
+    de f t (JObj s1) <> None -> de f' t (JObj s2) <> None.
+  Proof.
+    intros Hle E Hs H. apply (acc_mono f f'); [exact Hle|].
+    destruct f as [|f]; [rewrite de_0 in H; congruence|]. rewrite de_S, E in *.
+    revert H. apply map_sub_node; [exact (fun t j H => H) | exact Hs].
+  Qed.
+
   (* lifting along the fuel, for the helpers *)
+  Ltac lift_side Hle :=
+    first [ (intros ? ?; apply acc_mono; exact Hle)
+          | (intros ?; apply default_val_mono; exact Hle)
+          | (intros ?; apply null_mono; exact Hle)
+          | (intros ? ? ? ? ?; apply map_sub_mono; exact Hle) ].
   Lemma missing_mono f f' p :
     f <= f' -> missing T (de f) (default_val f) p <> None -> missing T (de f') (default_val f') p <> None.
   Proof.
-    intros Hle. apply missing_lift; [intros t j; apply acc_mono; exact Hle | intros t; apply default_val_mono; exact Hle
-                | intros t; apply null_mono; exact Hle].
+    intros Hle. apply missing_lift; lift_side Hle.
   Qed.
 
   Lemma member_val_mono f f' kvs p w :
     f <= f' -> member_val T (de f) (default_val f) kvs p w <> None ->
     member_val T (de f') (default_val f') kvs p w <> None.
   Proof.
-    intros Hle. apply member_val_lift; [intros t j; apply acc_mono; exact Hle | intros t; apply default_val_mono; exact Hle
-                | intros t; apply null_mono; exact Hle].
+    intros Hle. apply member_val_lift; lift_side Hle.
   Qed.
 
   Lemma de_named_mono f f' ps kvs :
     f <= f' -> de_named T (de f) (default_val f) ps kvs <> None ->
     de_named T (de f') (default_val f') ps kvs <> None.
   Proof.
-    intros Hle. apply de_named_lift; [intros t j; apply acc_mono; exact Hle | intros t; apply default_val_mono; exact Hle
-                | intros t; apply null_mono; exact Hle].
+    intros Hle. apply de_named_lift; lift_side Hle.
   Qed.
 
   Lemma de_struct_obj_mono f f' ps deny kvs :
     f <= f' -> de_struct_obj T (de f) (default_val f) ps deny kvs <> None ->
     de_struct_obj T (de f') (default_val f') ps deny kvs <> None.
   Proof.
-    intros Hle. apply de_struct_obj_lift; [intros t j; apply acc_mono; exact Hle | intros t; apply default_val_mono; exact Hle
-                | intros t; apply null_mono; exact Hle].
+    intros Hle. apply de_struct_obj_lift; lift_side Hle.
   Qed.
 
   Lemma de_struct_seq_mono f f' ps l :
     f <= f' -> de_struct_seq T (de f) (default_val f) ps l <> None ->
     de_struct_seq T (de f') (default_val f') ps l <> None.
   Proof.
-    intros Hle. apply de_struct_seq_lift; [intros t j; apply acc_mono; exact Hle | intros t; apply default_val_mono; exact Hle
-                | intros t; apply null_mono; exact Hle].
+    intros Hle. apply de_struct_seq_lift; lift_side Hle.
   Qed.
 
   Lemma de_struct_body_mono f f' ps deny j :
     f <= f' -> de_struct_body T (de f) (default_val f) ps deny j <> None ->
     de_struct_body T (de f') (default_val f') ps deny j <> None.
   Proof.
-    intros Hle. apply de_struct_body_lift; [intros t x; apply acc_mono; exact Hle | intros t; apply default_val_mono; exact Hle
-                | intros t; apply null_mono; exact Hle].
+    intros Hle. apply de_struct_body_lift; lift_side Hle.
   Qed.
 
   Lemma de_payload_mono f f' deny vd j :
     f <= f' -> de_payload T (de f) (default_val f) deny vd j <> None ->
     de_payload T (de f') (default_val f') deny vd j <> None.
   Proof.
-    intros Hle. apply de_payload_lift; [intros t x; apply acc_mono; exact Hle | intros t; apply default_val_mono; exact Hle
-                | intros t; apply null_mono; exact Hle].
+    intros Hle. apply de_payload_lift; lift_side Hle.
   Qed.
 
   Lemma de_untagged_mono f f' deny vs i j :
     f <= f' -> de_untagged T (de f) (default_val f) deny vs i j <> None ->
     de_untagged T (de f') (default_val f') deny vs i j <> None.
   Proof.
-    intros Hle. apply de_untagged_lift; [intros t x; apply acc_mono; exact Hle | intros t; apply default_val_mono; exact Hle
-                | intros t; apply null_mono; exact Hle].
+    intros Hle. apply de_untagged_lift; lift_side Hle.
   Qed.
 
   Lemma de_enum_mono f f' tag vs deny j :
     f <= f' -> de_enum T (de f) (default_val f) tag vs deny j <> None ->
     de_enum T (de f') (default_val f') tag vs deny j <> None.
   Proof.
-    intros Hle. apply de_enum_lift; [intros t x; apply acc_mono; exact Hle | intros t; apply default_val_mono; exact Hle
-                | intros t; apply null_mono; exact Hle].
+    intros Hle. apply de_enum_lift; lift_side Hle.
   Qed.
 
   Lemma mapM_de_mono f f' t l : f <= f' -> mapM (de f t) l <> None -> mapM (de f' t) l <> None.
